@@ -73,7 +73,8 @@ Definition plan_eqb (a b : plan) : bool :=
   reason_eqb (p_reason a) (p_reason b).
 
 (* ---------------------------------------------------------------- cases *)
-(* verdict codes: 0 = error returned, 1 = nil error, 2 = panic / crash / hang, 3 = not run *)
+(* verdict codes: 0 = error returned, 1 = nil error, 2 = panic, 3 = not run;
+   k_validate = 4: the process died or hung somewhere in this case and reported nothing *)
 Record case := {
   k_plan : option plan;              (* the plan handed to Submit, abstracted before the call (None = nil) *)
   k_vplan : option (option plan);    (* the plan handed to workflow.Validate when its abstraction differs *)
@@ -139,6 +140,7 @@ Definition verdict (c : case) : nat :=
   let w0 := Build_world [] 0 in
   let now := match k_stored c with Some sp => p_submit sp | None => 1%Z end in
   let '(w1, r) := submit test_supply (fun _ => true) now (k_regset c) w0 (k_plan c) in
+  if Nat.eqb (k_validate c) 4 then 17 else
   if Nat.eqb (k_validate c) 2 then 1 else
   if negb (Nat.eqb (k_validate c) 3) && negb (Nat.eqb (k_validate c) (b2n spec_v)) then 3 else
   if negb (Nat.eqb (k_validate c) 3) && negb (Nat.eqb (k_validate c) (b2n (validate vp))) then 2 else
